@@ -79,14 +79,14 @@ impl Prune for IntLinEq {
             let target_max = self.constant.saturating_sub(min_other);
             
             let (new_min, new_max) = if coeff > 0 {
-                // x_i ∈ [target_min / coeff, target_max / coeff]
-                let min_val = target_min.div_euclid(coeff);
-                let max_val = target_max.div_euclid(coeff);
+                // x_i ∈ [ceil(target_min / coeff), floor(target_max / coeff)]
+                let min_val = div_ceil(target_min, coeff);
+                let max_val = div_floor(target_max, coeff);
                 (min_val, max_val)
             } else {
                 // Negative coefficient: flip the bounds
-                let min_val = target_max.div_euclid(coeff);
-                let max_val = target_min.div_euclid(coeff);
+                let min_val = div_ceil(target_max, coeff);
+                let max_val = div_floor(target_min, coeff);
                 (min_val, max_val)
             };
             
@@ -1015,6 +1015,18 @@ fn compute_fixed_sum(coefficients: &[i32], variables: &[VarId], ctx: &Context) -
     Some(sum)
 }
 
+/// Mathematical floor of `a / b` for a non-zero divisor of either sign.
+fn div_floor(a: i32, b: i32) -> i32 {
+    let q = a / b;
+    if a % b != 0 && ((a < 0) != (b < 0)) { q - 1 } else { q }
+}
+
+/// Mathematical ceiling of `a / b` for a non-zero divisor of either sign.
+fn div_ceil(a: i32, b: i32) -> i32 {
+    let q = a / b;
+    if a % b != 0 && ((a < 0) == (b < 0)) { q + 1 } else { q }
+}
+
 /// Helper to apply int_lin_eq propagation (extracted for reuse)
 fn prune_int_lin_eq(coefficients: &[i32], variables: &[VarId], constant: i32, ctx: &mut Context) -> Option<()> {
     for i in 0..variables.len() {
@@ -1058,12 +1070,12 @@ fn prune_int_lin_eq(coefficients: &[i32], variables: &[VarId], constant: i32, ct
         let target_max = constant.saturating_sub(min_other);
         
         let (new_min, new_max) = if coeff > 0 {
-            let min_val = target_min.div_euclid(coeff);
-            let max_val = target_max.div_euclid(coeff);
+            let min_val = div_ceil(target_min, coeff);
+            let max_val = div_floor(target_max, coeff);
             (min_val, max_val)
         } else {
-            let min_val = target_max.div_euclid(coeff);
-            let max_val = target_min.div_euclid(coeff);
+            let min_val = div_ceil(target_max, coeff);
+            let max_val = div_floor(target_min, coeff);
             (min_val, max_val)
         };
         
